@@ -151,9 +151,9 @@ PARAM_CLAIM_EXEMPT = {
 }
 
 
-def rule_iso_claim(ctx):
+def rule_iso_claim(ctx, only_modules=None, rule="iso-claim"):
     r = RuleResult(
-        "iso-claim",
+        rule,
         "a non-None left_inds may be (re)asserted together with new data only if the data keeps the isometry: "
         "(i) every site that re-asserts a tensor's own flag (left_inds derived from <t>.left_inds) pairs it with "
         "that tensor's data unchanged or transformed only by conj/reshape/transpose/astype — never with "
@@ -163,8 +163,11 @@ def rule_iso_claim(ctx):
     r.need_controls(1)
     n_own = 0
     n_param = 0
+    n_split = [0]
     for g in ctx.prog.all_functions(nested=False):
         if g.is_alias or isinstance(g.node, ast.Lambda) or not g.module.name.startswith("quimb.tensor"):
+            continue
+        if only_modules is not None and g.module.name not in only_modules and not ctx.is_control(g):
             continue
         defs = _local_defs(g.node)
         q = g.qualname if not ctx.is_control(g) else "QsaControl." + g.qualname
@@ -237,6 +240,18 @@ def rule_iso_claim(ctx):
                 else:
                     r.skip(f"{q}:{fn}", f"data provenance `{src_of(data)[:40]}` not classified")
                 continue
+            # (iii) a factor of a decomposition made in this function: isometric only for the absorb modes that put the
+            # singular values on the *other* factor -- an unconditional claim with a run-time absorb mode is wrong for some value
+            if data is not None:
+                verdict = _split_factor_claim(g, c, data)
+                if verdict is not None:
+                    n_split[0] += 1
+                    okv, msg = verdict
+                    if okv:
+                        r.ok(f"{q}:{fn}[split factor]", sample={"site": q, "claim": src_of(kws["left_inds"])[:30], "factor": msg})
+                    else:
+                        r.bad(Finding("iso-claim", q, msg, where=where, operand="split-factor"))
+                    continue
             # (ii) caller-supplied arrays
             if data is not None:
                 root = data
@@ -257,8 +272,89 @@ def rule_iso_claim(ctx):
                             f"without any provenance; a non-unitary operator is then skipped by the canonization shortcut",
                             where=where, operand=f"param:{root.id}",
                         ))
-    r.floor(n_own - r.controls_flagged, 5, "sites re-asserting a tensor's own flag")
+    if only_modules is None:
+        r.floor(n_own - r.controls_flagged, 5, "sites re-asserting a tensor's own flag")
     return r
+
+
+def _split_factor_claim(g, claim_call, data):
+    """None when `data` is not a factor of a decomposition made in g; else (ok, message)."""
+    root = data
+    while True:
+        if isinstance(root, ast.Call) and isinstance(root.func, ast.Attribute) and root.func.attr in ("conj", "conjugate") and not root.args:
+            root = root.func.value
+        elif isinstance(root, ast.Call) and (dotted(root.func) or "").split(".")[-1] in ("conj", "conjugate") and root.args:
+            root = root.args[0]
+        else:
+            break
+    if not isinstance(root, ast.Name):
+        return None
+    for a in ast.walk(g.node):
+        if not (isinstance(a, ast.Assign) and len(a.targets) == 1 and isinstance(a.targets[0], ast.Tuple) and isinstance(a.value, ast.Call)):
+            continue
+        names = [e.id if isinstance(e, ast.Name) else None for e in a.targets[0].elts]
+        if root.id not in names or a.lineno > claim_call.lineno:
+            continue
+        fn = (dotted(a.value.func) or "").split(".")[-1]
+        if fn not in ("split", "tensor_split", "array_split"):
+            continue
+        kws = {k.arg: k.value for k in a.value.keywords if k.arg}
+        k = names.index(root.id)
+        last = len(names) - 1
+        if k not in (0, last) or len(names) not in (2, 3):
+            return None
+        need = "right" if k == 0 else "left"  # the singular values must sit on the other factor
+        E = kws.get("absorb")
+        if E is None:
+            return None  # default mode of the method: decided by parse_split_left_right_isom, not here
+        vals = None
+        if isinstance(E, ast.Constant):
+            vals = {E.value}
+        elif isinstance(E, ast.IfExp) and isinstance(E.body, ast.Constant) and isinstance(E.orelse, ast.Constant):
+            vals = {E.body.value, E.orelse.value}
+        elif isinstance(E, ast.Subscript) and isinstance(E.value, ast.Dict) and all(isinstance(v, ast.Constant) for v in E.value.values):
+            vals = {v.value for v in E.value.values}
+        if vals is not None:
+            bad = sorted(str(v) for v in vals if v not in (need, None))
+            if not bad:
+                return True, f"`{root.id}` with absorb in {sorted(map(str, vals))}"
+            run_names = {x.id for x in ast.walk(E) if isinstance(x, ast.Name)}
+        else:
+            bad = ["<run-time value>"]
+            run_names = {x.id for x in ast.walk(E) if isinstance(x, ast.Name)}
+        # a conditional claim (`left_inds=X if flag else None`) whose flag is computed from what selects the absorb mode
+        lv = next((k_.value for k_ in claim_call.keywords if k_.arg == "left_inds"), None)
+        if isinstance(lv, ast.IfExp):
+            tnames = {x.id for x in ast.walk(lv.test) if isinstance(x, ast.Name)}
+            for a2 in ast.walk(g.node):
+                if isinstance(a2, ast.Assign) and any(isinstance(y, ast.Name) and y.id in tnames for t_ in a2.targets for y in ast.walk(t_)):
+                    tnames |= {x.id for x in ast.walk(a2.value) if isinstance(x, ast.Name)}
+            if run_names & tnames:
+                # the decomposition method is a run-time value too (polar factors of wide / tall matrices have more bond than
+                # dangling dimension and only orthonormal rows): the flag also has to look at the shape of the factor it describes
+                meth = kws.get("method")
+                if meth is not None and not isinstance(meth, ast.Constant):
+                    flag_names = {x.id for x in ast.walk(lv.test) if isinstance(x, ast.Name)}
+                    shape_seen = False
+                    for a2 in ast.walk(g.node):
+                        if isinstance(a2, ast.Assign) and any(isinstance(y, ast.Name) and y.id in flag_names for t_ in a2.targets for y in ast.walk(t_)):
+                            for x in ast.walk(a2.value):
+                                if isinstance(x, ast.Attribute) and x.attr == "shape" and isinstance(x.value, ast.Name) and x.value.id == root.id:
+                                    shape_seen = True
+                                if isinstance(x, ast.Call) and (dotted(x.func) or "").split(".")[-1] == "shape" and any(isinstance(y, ast.Name) and y.id == root.id for y in ast.walk(x)):
+                                    shape_seen = True
+                    if not shape_seen:
+                        return False, (f"flags `{root.id}` as isometric from (method, absorb) alone: for a run-time method the flag never looks at the factor's shape, but a factor "
+                                       "whose bond is larger than its dangling dimension (polar factor of a wide / tall matrix) cannot be an isometry")
+                return True, f"`{root.id}` claimed conditionally on a flag computed from {sorted(run_names & tnames)} and the factor's shape"
+        # a claim guarded by a test on what selects the absorb mode is decided per arm -- not judged here
+        for st in ast.walk(g.node):
+            if isinstance(st, (ast.If, ast.IfExp)) and any(x is claim_call for x in ast.walk(st)) and not any(x is a for x in ast.walk(st)):
+                if run_names & {x.id for x in ast.walk(st.test) if isinstance(x, ast.Name)}:
+                    return True, f"`{root.id}` claimed under a test on {sorted(run_names)}"
+        return False, (f"flags `{root.id}` (factor {k} of `{src_of(a.value)[:50]}...`) as isometric unconditionally although absorb=`{src_of(E)[:40]}` can be "
+                       f"{bad[0]}: with the singular values absorbed into this factor it is not an isometry, and the canonization shortcut will skip it")
+    return None
 
 
 # ------------------------------------------------------------ exp-compensate
